@@ -77,6 +77,20 @@ let handle kind c =
       diff "timer-files" ~model:(show want) ~impl:(show (List.sort compare files));
       if !chain_ok then prop "rotation" (Printf.sprintf "increments after a recorded end are not in the next span's file: %s" (show files))
     end
+  | "rotfail" ->
+    (* a rotation that fails once: no file may hold more increments than were
+       made while its own span was current (an increment is never counted in
+       another week's file) *)
+    let w = next_z c in
+    let incs = next_list c (fun c -> let t = next_z c in let n = next_z c in (t, n)) in
+    let files = next_list c (fun c -> let tb = next_bytes c in let te = next_bytes c in let v = next_z c in (tb, te, v)) in
+    List.iter (fun (tb, te, v) ->
+        let made = List.fold_left (fun acc (t, n) ->
+            let s = counter_span t w in
+            if meta_time_begin s = tb && meta_time_end s = te then Z.add acc n else acc) Z0 incs in
+        if not (Z.leb v made) then
+          prop "rotation" (Printf.sprintf "after a rotation that failed once: the file of span %s .. %s holds %s increments, only %s were made in that span (increments made in another week are counted here)"
+                             (string_of_bytes tb) (string_of_bytes te) (tok_of_z v) (tok_of_z made))) files
   | "uploadmulti" ->
     (* several programs and weeks, one run: a file is consumed iff its recorded
        end is before the start, and then its count is in the report named by
